@@ -80,6 +80,18 @@ def accepted_but_uncompilable(res, prop):
                 break
 
 
+# The generated code is compiled inside the *user's* crate, so `cfg(debug_assertions)` / `debug_assert!` in it follow the user's profile. The main
+# workspace is a dev build (debug assertions on); the properties whose monitors watch panics-or-values of `Default` and the finiteness
+# invariant are run a second time on the relevant corpora in a workspace whose profile switches debug assertions off (overflow checks stay on
+# for the harness's own arithmetic).
+NODEBUG_PROFILE = cratebuild.PROFILE.replace("[profile.dev]\n", "[profile.dev]\ndebug-assertions = false\noverflow-checks = true\n", 1) + "debug-assertions = false\n"
+NODEBUG_PROPS = {"C03", "C12", "C01"}
+
+
+def nodebug_decls(tier, seed):
+    return corpus_extra.build_defaults(tier, seed) + corpus_extra.build_finite(tier, seed) + corpus_extra.build_unchecked(tier, seed)
+
+
 def ctor_flow(prop, tier, seed, rule, guards_fn, assumptions=None):
     res = Result(prop, tier, seed)
     res.rule = rule
@@ -87,6 +99,21 @@ def ctor_flow(prop, tier, seed, rule, guards_fn, assumptions=None):
     if out is None:
         return finish(res)
     reports = out[prop]
+    if prop in NODEBUG_PROPS:
+        q_main, d_main = dict(res.quarantined), res.declarations
+        out2, by_id2 = runtime_check(res, "rt-nodebug-%s" % tier, nodebug_decls(tier, seed), [prop], profile=NODEBUG_PROFILE)
+        res.quarantined, res.declarations = q_main, d_main
+        if out2 is None:
+            return finish(res)
+        for r in out2[prop]:
+            r["decl"] = "nodebug:" + r["decl"]
+            for v in r.get("violations", []):
+                v["signature"] = "debug-assertions-off:" + v["signature"]
+        res.extra.setdefault("coverage_extra", {})["declarations_rerun_with_debug_assertions_off"] = len(out2[prop])
+        res.guard("reports_with_debug_assertions_off", len(out2[prop]), 20)
+        by_id = dict(by_id)
+        by_id.update({"nodebug:" + k: v for k, v in by_id2.items()})
+        reports = reports + out2[prop]
     absorb_reports(res, reports, by_id)
     guards_fn(res, reports)
     accepted_but_uncompilable(res, prop)
@@ -156,6 +183,7 @@ def check_c06(tier, seed):
             for k in ("parse-error", "validate-error", "ok"):
                 f[k] += r["hist"].get(k, 0)
             f["san"] += r["guards"].get("sanitizer_changed_parsed_value", 0)
+        fromstr_scope_verdicts(res, tier)
         for fam in ("int", "float", "other"):
             c = fams.get(fam, {})
             for k in ("parse-error", "validate-error", "ok"):
@@ -408,6 +436,30 @@ def check_c04(tier, seed):
                      "byte, duplicated byte). Oracle: a serde-derived `#[serde(rename=T)] struct RefT(Inner)` parsed from the same bytes, then try_new on every carried value; "
                      "plus a probing Deserializer (entry point must be deserialize_newtype_struct(T); visit_u64 must not yield a value). A case is a (declaration, format/position, "
                      "accepted|rejected-by-inner-type|rejected-by-validator|changed-by-sanitizer) triple.", guards)
+
+
+def fromstr_scope_verdicts(res, tier):
+    """C06 quantifies over every declaration deriving FromStr, wherever it is written: the generated impl must compile in modules that define
+    names the prelude also has (same `scope:*` programs as C08 / C10; integer, float and generic declarations)."""
+    vb = corpus_verdict.VB()
+    corpus_verdict.names(vb, cratebuild.ALL_FEATURES, "c06")
+    cases = [c for c in vb.cases if c.rule.startswith("scope:") and c.expect == "MUST_ACCEPT" and "FromStr" in c.body and not c.rule.endswith(":string")]
+    vc = verdict.VerdictCrate("c06v-%s" % tier, cratebuild.ALL_FEATURES, extra_deps=FULL_DEPS, nshards=4)
+    try:
+        out, info = verdict.run_verdicts(vc, cases, log=log)
+    except Inconclusive as e:
+        res.inconclusive.append(str(e))
+        return
+    n = 0
+    for c in cases:
+        o = out[c.id]
+        res.evaluations += 1
+        n += 1
+        if o["verdict"] == "accepted":
+            res.classes.add("scope|" + c.rule.split(":")[1])
+        else:
+            res.violations.append(verdict_witness(res, c, "rejected: %s" % json.dumps(o["errors"])[:500], "fromstr-impl-does-not-compile-in-scope:" + c.rule.split(":")[1]))
+    res.guard("fromstr_declarations_compiled_in_shadowing_scopes", n, 50)
 
 
 def serde_scope_verdicts(res, tier):
